@@ -2,8 +2,9 @@ package luaprop
 
 // fragclass: which of the PROVED fragments of the fragment-compiler theorems (coq/CC) a generated
 // fragment program falls in. A Go mirror of FragSem.in_frag (F0), Frag1Sem.in_frag1 (F1),
-// Frag2Sem.in_frag2 (F2) and Frag3Sem.in_frag3 (F3) without their register-budget side conditions
-// (never reached by the generator's programs). Statistics only (the Class of the case): nothing is decided from it, the
+// Frag2Sem.in_frag2 (F2), Frag3Sem.in_frag3 (F3) and Frag4Sem.in_frag4 (F4; its lit_ok condition on string
+// literals is not mirrored: the generator's strings are short numerals and words) without their
+// register-budget side conditions (never reached by the generator's programs). Statistics only (the Class of the case): nothing is decided from it, the
 // Coq predicates are the definitions.
 
 import "verifh/luagen"
@@ -43,8 +44,11 @@ var fcGlobalKeys = []string{"emit", "type", "tostring", "tonumber", "select", "u
 	"rawget", "rawset", "rawequal", "setmetatable", "getmetatable", "getfenv", "setfenv", "pcall", "xpcall",
 	"error", "assert", "newud", "coroutine", "table", "string", "math", "_G"}
 
-// fcGlobals: reads of undefined globals are allowed (F3)
+// fcGlobals: reads of undefined globals are allowed (F3, F4)
 var fcGlobals bool
+
+// fcNoTaint: no taint restriction (F4: arithmetic coerces numeric strings)
+var fcNoTaint bool
 
 // expression of F2/F3 relative to T; with strs=false: expression of F0/F1 (no string literal)
 func fcExpr(T, locals []string, e luagen.Expr, strs bool) bool {
@@ -59,11 +63,11 @@ func fcExpr(T, locals []string, e luagen.Expr, strs bool) bool {
 		return fcExpr(T, locals, x.E, strs)
 	case *luagen.Bin:
 		return fcArith(x.Op) && fcExpr(T, locals, x.A, strs) && fcExpr(T, locals, x.B, strs) &&
-			!fcEstr(T, x.A) && !fcEstr(T, x.B)
+			(fcNoTaint || (!fcEstr(T, x.A) && !fcEstr(T, x.B)))
 	case *luagen.Un:
 		switch x.Op {
 		case "-":
-			return fcExpr(T, locals, x.A, strs) && !fcEstr(T, x.A)
+			return fcExpr(T, locals, x.A, strs) && (fcNoTaint || !fcEstr(T, x.A))
 		case "not":
 			return fcExpr(T, locals, x.A, strs)
 		}
@@ -141,7 +145,7 @@ func fcStmts(T []string, prog []luagen.Stmt, strs, multi bool) bool {
 			}
 		}
 		for j := 0; j < len(names) && j < len(es); j++ {
-			if fcEstr(T, es[j]) && !fcHas(T, names[j]) {
+			if !fcNoTaint && fcEstr(T, es[j]) && !fcHas(T, names[j]) {
 				return false
 			}
 		}
@@ -152,10 +156,10 @@ func fcStmts(T []string, prog []luagen.Stmt, strs, multi bool) bool {
 	return true
 }
 
-// FragClass returns "F0", "F1", "F2", "F3" (the smallest proved fragment the program is in) or
-// "tie" (only the per-run tie of compile_frag with the real compiler covers it).
+// FragClass returns "F0", "F1", "F2", "F3", "F4" (the smallest proved fragment the program is in)
+// or "tie" (only the per-run tie of compile_frag with the real compiler covers it).
 func FragClass(prog []luagen.Stmt) string {
-	fcGlobals = false
+	fcGlobals, fcNoTaint = false, false
 	if fcStmts(nil, prog, false, false) {
 		return "F0"
 	}
@@ -174,9 +178,13 @@ func FragClass(prog []luagen.Stmt) string {
 		return "F2"
 	}
 	fcGlobals = true
-	defer func() { fcGlobals = false }()
+	defer func() { fcGlobals, fcNoTaint = false, false }()
 	if fcStmts(T, prog, true, true) {
 		return "F3"
+	}
+	fcNoTaint = true
+	if fcStmts(nil, prog, true, true) {
+		return "F4"
 	}
 	return "tie"
 }
